@@ -29,6 +29,8 @@ type schedScenario struct {
 	threads [][]sealOp
 	regl    uint32 // preset regular out counter
 	prio    uint32
+	// serverSends: the sending router was the server side of the key exchange.
+	serverSends bool
 }
 
 type sealed struct {
@@ -60,7 +62,12 @@ func runSchedule(sc schedScenario, choices []int) *execution {
 	if err != nil {
 		panic(err)
 	}
-	if err := kit.KeySessions(a, b); err != nil {
+	if sc.serverSends {
+		err = kit.KeySessions(b, a)
+	} else {
+		err = kit.KeySessions(a, b)
+	}
+	if err != nil {
 		panic(err)
 	}
 	sa := a.State().GetSession(pool[1].IP)
@@ -337,6 +344,7 @@ func schedScenarios(thorough bool) []schedScenario {
 		add("2-threads/RP|PR/"+preset.n, preset.r, 300, []sealOp{R, P}, []sealOp{P, R})
 		add("3-threads/R|R|P/"+preset.n, preset.r, 300, []sealOp{R}, []sealOp{R}, []sealOp{P})
 		add("2-threads/LL|LL/"+preset.n, preset.r, 300, []sealOp{L, L}, []sealOp{L, L})
+		out = append(out, schedScenario{name: "2-threads/RP|PR/server-sends/" + preset.n, threads: [][]sealOp{{R, P}, {P, R}}, regl: preset.r, prio: 300, serverSends: true})
 		if thorough {
 			add("3-threads/RR|RP|PR/"+preset.n, preset.r, 300, []sealOp{R, R}, []sealOp{R, P}, []sealOp{P, R})
 			add("3-threads/L|L|L/"+preset.n, preset.r, 300, []sealOp{L}, []sealOp{L}, []sealOp{L})
